@@ -169,5 +169,36 @@ def rule_o3(repo):
     return res
 
 
+def rule_o4(repo):
+    """Asserting a bound on a non-basic variable moves it (update), which shifts the basic variables of
+    its rows - possibly out of their bounds.  Only check() repairs that.  The assignment that is reported as a
+    witness is the one left by the last assertion: after every assertion, on every path to the next one (or to
+    the end), the tableau must have been checked."""
+    from ..cfg import cfg_of
+    res = RuleResult('C16.O4', 'after every asserted bound the tableau is checked before the next assertion or the result', floor=2)
+    for rel, qual in (('prover/simplex.py', 'Simplex.handle_assertion'), ('prover/simplex.py', 'SimplexHOLWrapper.handle_assertion')):
+        cname, mname = qual.split('.')
+        f = need(repo.module(rel).classes[cname].find_method(mname), '%s not found' % qual)
+        cfg = cfg_of(f.node)
+
+        def has_call(n, names):
+            return n.ast is not None and n.kind in ('stmt', 'test', 'return') and any(
+                isinstance(c, ast.Call) and call_attr(c) in names for c in ast.walk(n.ast))
+        asserts = [n for n in cfg.nodes if has_call(n, ('assert_upper', 'assert_lower')) and not isinstance(n.ast, (ast.For, ast.If, ast.Try))]
+        checks = [n for n in cfg.nodes if has_call(n, ('check',)) and not isinstance(n.ast, (ast.For, ast.Try))]
+        need(asserts and checks, '%s: assertion of bounds / call of check not found' % qual)
+        iters = [n for n in cfg.nodes if n.kind == 'iter']
+        need(iters, '%s: loop over the assertions not found' % qual)
+        for a in asserts:
+            r = cfg.reach_from([b for b, l in a.succ if l != 'exc'], skip_nodes=checks, skip_edges=[(n.id, 'exc') for n in cfg.nodes])
+            hit = [i for i in iters if i.id in r] + ([cfg.exit] if cfg.exit.id in r else [])
+            res.add('%s :: %s :: checked-after(%s)' % (rel, qual, src(a.ast, 40)), not hit,
+                    'every path to the next assertion or the end passes check()' if not hit else
+                    'a path from `%s` reaches %s without check(): the basic variables of the rows of a moved non-basic variable can be left outside '
+                    'their bounds, and the assignment is reported as a solution (x+y<=2, x>=3 gave x=3, y=0)' % (
+                        src(a.ast, 50), 'the next assertion' if hit[0].kind == 'iter' else 'the end'), '%s:%d' % (rel, a.lineno))
+    return res
+
+
 def rules(repo):
-    return [rule_o1(repo), rule_o2(repo), rule_o3(repo)]
+    return [rule_o1(repo), rule_o2(repo), rule_o3(repo), rule_o4(repo)]
